@@ -218,7 +218,47 @@ theorem dec_sctList_sound (bs : Bytes) (l : List Bytes) (r : Bytes) (h : dec tSC
     Rfc.decSctList bs = some (l, r) :=
   rfc_of_dec tSCTList sctListVal Rfc.sctList Rfc.decSctList (fun x a h => enc_sctList_sound x a h) Rfc.decSctList_enc bs l r h
 
-/- FULL (decoders): "`dec T bs = .ok (v, r)` for an arbitrary `v` implies `v` is the Go layout of an RFC value".
+/-! ### accepted ⇒ RFC: for the structures without variants, *whatever* `tls.Unmarshal` accepts is (the Go layout of) an
+RFC value and the RFC decoder accepts the same bytes with the same rest -/
+
+theorem dec_digitallySigned_exact (bs : Bytes) (v : Val) (r : Bytes) (h : dec tDigitallySigned bs = .ok (v, r)) :
+    ∃ d, v = dsVal d ∧ Rfc.decDigitallySigned bs = some (d, r) := by
+  have hE := enc_digitallySigned; rw [ty_DigitallySigned] at hE h
+  exact dec_exact _ dsVal _ _ shape_DigitallySigned (fun x a ha => okOfEo (hE x) ha) Rfc.decDigitallySigned_enc bs v r h
+
+theorem dec_asn1Cert_exact (bs : Bytes) (v : Val) (r : Bytes) (h : dec tASN1Cert bs = .ok (v, r)) :
+    ∃ c, v = asn1CertVal c ∧ Rfc.decAsn1Cert bs = some (c, r) := by
+  have hE := enc_asn1Cert; rw [ty_ASN1Cert] at hE h
+  exact dec_exact _ asn1CertVal _ _ shape_ASN1Cert (fun x a ha => okOfEo (hE x) ha) Rfc.decAsn1Cert_enc bs v r h
+
+theorem dec_preCert_exact (bs : Bytes) (v : Val) (r : Bytes) (h : dec tPreCert bs = .ok (v, r)) :
+    ∃ p, v = preCertVal p ∧ Rfc.decPreCert bs = some (p, r) := by
+  have hE := enc_preCert; rw [ty_PreCert] at hE h
+  exact dec_exact _ preCertVal _ _ shape_PreCert (fun x a ha => okOfEo (hE x) ha) Rfc.decPreCert_enc bs v r h
+
+theorem dec_sct_exact (bs : Bytes) (v : Val) (r : Bytes) (h : dec tSCT bs = .ok (v, r)) :
+    ∃ s, v = sctVal s ∧ Rfc.decSct bs = some (s, r) := by
+  have hE := enc_sct; rw [ty_SCT] at hE h
+  exact dec_exact _ sctVal _ _ shape_SCT (fun x a ha => okOfEo (hE x) ha) Rfc.decSct_enc bs v r h
+
+theorem dec_certChain_exact (bs : Bytes) (v : Val) (r : Bytes) (h : dec tCertificateChain bs = .ok (v, r)) :
+    ∃ c, v = chainVal c ∧ Rfc.decCertChain bs = some (c, r) := by
+  have hE := enc_certChain; rw [ty_CertificateChain] at hE h
+  exact dec_exact _ chainVal _ _ shape_CertificateChain (fun x a ha => okOfEo (hE x) ha) Rfc.decCertChain_enc bs v r h
+
+theorem dec_precertChainEntry_exact (bs : Bytes) (v : Val) (r : Bytes) (h : dec tPrecertChainEntry bs = .ok (v, r)) :
+    ∃ e, v = precertChainVal e ∧ Rfc.decPrecertChainEntry bs = some (e, r) := by
+  have hE := enc_precertChainEntry; rw [ty_PrecertChainEntry] at hE h
+  exact dec_exact _ precertChainVal _ _ shape_PrecertChainEntry (fun x a ha => okOfEo (hE x) ha) Rfc.decPrecertChainEntry_enc bs v r h
+
+/-- SCT lists: whatever is accepted (under today's tag bound, whichever it is) is an RFC list -/
+theorem dec_sctList_exact (bs : Bytes) (v : Val) (r : Bytes) (h : dec tSCTList bs = .ok (v, r)) :
+    ∃ l, v = sctListVal l ∧ Rfc.decSctList bs = some (l, r) := by
+  have hs := enc_sctList_sound
+  rw [ty_SCTList] at hs h
+  exact dec_exact _ sctListVal _ _ (shape_SCTList _) hs Rfc.decSctList_enc bs v r h
+
+/- FULL (decoders with variants): "`dec T bs = .ok (v, r)` for an arbitrary `v` implies `v` is the Go layout of an RFC value".
 Not a theorem: `TimestampedEntry` / `CertificateTimestamp` carry a third variant `JSONEntry` for entry type 0x8000
 (`XJSONLogEntryType`, the repository's documented extension), so `tls.Unmarshal` also accepts entry type 32768 where
 RFC 6962 has no `case`.  The wrappers that promise an RFC parse (`RawLogEntryFromLeaf`, `SerializeSCTSignatureInput`)
